@@ -1,6 +1,6 @@
 /-
   Model of option resolution: `pf/pipeflow_setup.py: init_options, _iteration_check, _mode_check`.
-  Python dicts are association lists with dict semantics (`insert` replaces an existing key in place,
+  Python dicts are association lists with dict semantics (`dput` replaces an existing key in place,
   otherwise appends); values are a small sum type.  Core-only, executable.
 -/
 namespace PPV.Model.Options
@@ -23,46 +23,53 @@ def OptVal.truthy : OptVal → Bool
 
 abbrev Layer := List (String × OptVal)
 
-def lookup (l : Layer) (k : String) : Option OptVal :=
+def dget (l : Layer) (k : String) : Option OptVal :=
   match l with
   | [] => none
-  | (k', v) :: t => if k' = k then some v else lookup t k
+  | (k', v) :: t => if k' = k then some v else dget t k
 
-def insert (l : Layer) (k : String) (v : OptVal) : Layer :=
+def dput (l : Layer) (k : String) (v : OptVal) : Layer :=
   match l with
   | [] => [(k, v)]
-  | (k', v') :: t => if k' = k then (k, v) :: t else (k', v') :: insert t k v
+  | (k', v') :: t => if k' = k then (k, v) :: t else (k', v') :: dput t k v
 
-def erase (l : Layer) (k : String) : Layer := l.filter (fun p => p.1 != k)
+def ddel (l : Layer) (k : String) : Layer := l.filter (fun p => p.1 != k)
 
 /-- `{**a, **b}` -/
-def merge (a b : Layer) : Layer := b.foldl (fun acc p => insert acc p.1 p.2) a
+def dmerge (a b : Layer) : Layer := b.foldl (fun acc p => dput acc p.1 p.2) a
 
 def stageKeys : List String := ["max_iter_hyd", "max_iter_therm", "max_iter_bidirect"]
 
 /-- `_iteration_check(opts)`: `iter` fills the stage limits this layer does not set itself -/
 def iterationCheck (o : Layer) : Layer :=
   if o.isEmpty then o else
-  match lookup o "iter" with
+  match dget o "iter" with
   | Option.none => o
   | some .none => o
-  | some n => stageKeys.foldl (fun acc key => if (lookup acc key).isSome then acc else insert acc key n) o
+  | some n => stageKeys.foldl (fun acc key => if (dget acc key).isSome then acc else dput acc key n) o
 
 /-- `_mode_check` -/
 def modeCheck (o : Layer) : Layer :=
-  if lookup o "mode" = some (.s "all") then insert o "mode" (.s "sequential") else o
+  if dget o "mode" = some (.s "all") then dput o "mode" (.s "sequential") else o
 
 /-- `init_options(net, **kwargs)`; returns `net["_options"]`. `numbaInstalled`, `fluidName` are the two
 environment inputs the function reads besides the three layers. -/
+def merged (defaults user kw : Layer) : Layer :=
+  dmerge (dmerge defaults (iterationCheck user)) (iterationCheck kw)
+
+/-- `keys_to_exclude` -/
+def dropExcluded (o : Layer) : Layer := ddel (ddel o "interactive_plotting") "t_start"
+
+/-- `if not opts["only_update_hydraulic_matrix"]: opts["reuse_internal_data"] = False` -/
+def stepReuse (o : Layer) : Layer :=
+  if ((dget o "only_update_hydraulic_matrix").getD .none).truthy then o
+  else dput o "reuse_internal_data" (.b false)
+
+/-- `if not numba_installed: opts["use_numba"] = False` -/
+def stepNumba (numbaInstalled : Bool) (o : Layer) : Layer :=
+  if numbaInstalled then o else dput o "use_numba" (.b false)
+
 def initOptions (defaults user kw : Layer) (numbaInstalled : Bool) (fluidName : String) : Layer :=
-  let u := iterationCheck user
-  let k := iterationCheck kw
-  let o := merge (merge defaults u) k
-  let o := erase (erase o "interactive_plotting") "t_start"
-  let o := if ((lookup o "only_update_hydraulic_matrix").getD .none).truthy then o
-           else insert o "reuse_internal_data" (.b false)
-  let o := if numbaInstalled then o else insert o "use_numba" (.b false)
-  let o := insert o "fluid" (.s fluidName)
-  modeCheck o
+  modeCheck (dput (stepNumba numbaInstalled (stepReuse (dropExcluded (merged defaults user kw)))) "fluid" (.s fluidName))
 
 end PPV.Model.Options
